@@ -503,8 +503,10 @@ class Prop(Check):
         "History.C16_shareInstances_false",
     ]
     DRIVER = "Drivers/History.lean"
-    QUICK_CASES = 72
-    THOROUGH_CASES = 900
+    QUICK_CASES = 72          # x 5 histories = 360 histories, ~2600 operations
+    THOROUGH_CASES = 840      # x 6 histories = 5040 histories
+    PROCS_QUICK = int(os.environ.get("C16_PROCS", "4"))
+    PROCS_THOROUGH = int(os.environ.get("C16_PROCS", "16"))
     CASE_TIMEOUT = 400
     MAX_INCONCLUSIVE = 0.1  # more than this fraction of unfinished cases: infrastructure trouble (exit 2)
     RULE = ("pools of 2-4 metamodels (+0-2 created inside the history) x 5 histories of 3-12 loads (strings / files, valid / "
